@@ -20,7 +20,8 @@ class Wb2CsrWorld(World):
     stub_components = ("CSR target (seeded agent: unique read word one cycle after r_stb)",
                        "Wishbone initiator (seeded closed-loop agent)")
     fault_kinds = ("select_mask_partial", "select_mask_zero", "back_to_back", "spaced",
-                   "cyc_without_stb", "stb_without_cyc", "idle_signal_churn")
+                   "cyc_without_stb", "stb_without_cyc", "idle_signal_churn",
+                   "second_instance_in_process")
     assumptions = (
         "Amaranth's Python RTL simulator executes the elaborated netlist faithfully",
         "the Wishbone initiator holds cyc, stb and all request signals stable from the start of a "
@@ -47,7 +48,8 @@ class Wb2CsrWorld(World):
         ratio = ww // cw
         caw = rng.range(max(1, log2(ratio)) if not rng.chance(0.05) else 1,
                         8 if not rng.chance(0.1) else 12)
-        return {"cw": cw, "ww": ww, "caw": caw}
+        return {"cw": cw, "ww": ww, "caw": caw, "decoy": int(rng.chance(0.1)),
+                "decoy_first": int(rng.chance(0.5))}
 
     def gen_ops(self, rng, config, prop):
         cw, ww, caw = config["cw"], config["ww"], config["caw"]
@@ -78,6 +80,16 @@ class Wb2CsrWorld(World):
                                  WishboneCSRBridge, cbus, data_width=ww)
         else:
             dut = hw.construct(WishboneCSRBridge, cbus, data_width=ww)
+        if config.get("decoy"):
+            # another bridge of the same ratio but another CSR width is built afterwards
+            cw2 = 16 if cw == 8 else 8
+            c2 = csr.Interface(addr_width=caw, data_width=cw2, path=("csr2",))
+            c2.memory_map = MemoryMap(addr_width=caw, data_width=cw2)
+            try:
+                hw.elaborate_once(WishboneCSRBridge(c2, data_width=cw2 * ratio))
+            except (ValueError, TypeError):
+                pass
+            stats.fault("second_instance_in_process")
         wb = dut.wb_bus
         sim = hw.build_sim(hw.make_top(dut))
         waw = len(wb.adr)
